@@ -92,6 +92,42 @@ def asm_generate_and_replay(ctx, label, cfg_kwargs, profiles, deep=False, target
     os.remove(cases)
 
 
+def asm_trace_cfg(topkind):
+    return """SPECIFICATION TraceSpec
+CONSTANTS
+  Keys = {}
+  Scalars = {}
+  Prebuilt = {}
+  Hints = {0}
+  TopKind = "%s"
+  MaxNodes = 1000000
+  MaxDepth = 1000
+  MaxRejects = 1000000
+  MaxResets = 1000000
+  Routes = {"entry", "keyvalue", "keynode"}
+INVARIANTS TypeOK NoDuplicateKeys BuiltIsFoldOfAccepted
+POSTCONDITION TraceAccepted
+CHECK_DEADLOCK FALSE
+""" % topkind
+
+
+def asm_trace_stage(ctx, sessions, calls):
+    """B2: long random sessions recorded from the real builders, validated by TLC against Assembler.tla."""
+    total = 0
+    for topkind in ("any", "map", "list"):
+        tr = os.path.join(ctx.scratch, "asm-trace-%s.ndjson" % topkind)
+        args = ["asm-record", "-out", tr, "-sessions", str(sessions), "-calls", str(calls), "-topkind", topkind,
+                "-seed", str(ctx.seed * 7919 + len(topkind))]
+        rep = ctx.vh_run(args)
+        ctx.absorb(rep, None, label="asm-record/" + topkind)
+        total += rep.get("extra", {}).get("events", 0)
+        ctx.tlc_trace("AssemblerTrace", asm_trace_cfg(topkind), tr, "assembler/recorded-" + topkind,
+                      "builder[%s]" % topkind, timeout=1500)
+        os.remove(tr)
+    ctx.notes.append("trace validation: %d recorded assembler calls (%d sessions of ~%d calls per top kind, nesting <= 6)"
+                     % (total, sessions, calls))
+
+
 def ta_cfg(ti, level, maxdev, rejects=1):
     return """SPECIFICATION TSpec
 CONSTANTS
@@ -143,7 +179,7 @@ def typed_protocol_stage(ctx, maxdev, secondary=False, rejects=1):
     fconf = schema_cases(ctx, "conforming", 1, "conf")
     genrun = gen_engine(ctx, fconf)
     if genrun is not None:
-        args = ["-typedasm", "-in", f] + sec
+        args = ["gentypedasm", "-in", f] + sec
         ctx.absorb(ctx.vh_run(args, binary=genrun, timeout=3000), args, label="typedasm/gengo", binary=genrun)
     os.remove(f)
 
@@ -153,12 +189,20 @@ def c12(ctx):
     profiles = sorted({0, ctx.seed % 4})
     quick = ctx.tier == "quick"
     # (1) protocol with the pinned rejections injected at every position, generic "any" builder
-    asm_generate_and_replay(ctx, "any", dict(topkind="any", nodes=4 if quick else 5, depth=2 if quick else 3,
-                                             nkeys=2, rejects=1 if quick else 2, resets=0,
-                                             prebuilt="basic"), profiles)
+    #     (thorough bounds fitted to measured state counts: each run stays between 1.5 M and 2.5 M states)
+    if quick:
+        asm_generate_and_replay(ctx, "any", dict(topkind="any", nodes=4, depth=2, nkeys=2, rejects=1, resets=0,
+                                                 prebuilt="basic"), profiles)
+    else:
+        asm_generate_and_replay(ctx, "any", dict(topkind="any", nodes=5, depth=2, nkeys=2, rejects=1, resets=0,
+                                                 prebuilt="basic"), profiles)
+        asm_generate_and_replay(ctx, "any-2rej", dict(topkind="any", nodes=4, depth=3, nkeys=2, rejects=2, resets=0,
+                                                      prebuilt="basic"), profiles)
+        asm_generate_and_replay(ctx, "any-deep", dict(topkind="any", nodes=5, depth=3, nkeys=2, rejects=1, resets=0,
+                                                      prebuilt="none"), profiles)
     # (2) map-only and list-only builders: top-level wrong-kind rejections + typed (bindnode) containers
     asm_generate_and_replay(ctx, "map", dict(topkind="map", nodes=4, depth=2, nkeys=2 if quick else 3,
-                                             rejects=1 if quick else 2, resets=0, kinds=("int", "string"),
+                                             rejects=1, resets=0, kinds=("int", "string"),
                                              prebuilt="basic"), profiles)
     asm_generate_and_replay(ctx, "list", dict(topkind="list", nodes=4, depth=2, nkeys=2, rejects=1,
                                               resets=0, kinds=("int", "string"), prebuilt="basic"), profiles)
@@ -172,6 +216,8 @@ def c12(ctx):
                                     prebuilt="basic", emit=False, view=True), timeout=1500)
     # (5) the typed builders of both engines, type level and representation level (TypedAssembler.tla)
     typed_protocol_stage(ctx, 2 if quick else 3)
+    # (6) B2: recorded sessions far beyond the exhaustive bounds, validated against the same specification
+    asm_trace_stage(ctx, 30 if quick else 400, 300)
     return ctx.finish(
         "model_checking",
         rule="behaviours = every call sequence of Assembler.tla inside the bounds (TLC, exhaustive, one JSON line per "
@@ -183,7 +229,11 @@ def c12(ctx):
              "the canonical one (field order, route, key as node, other value / null, AssignNode of a whole container), a "
              "repeated key or an unacceptable kind / null injected at every position; replayed on bindnode and on code "
              "generated afresh; the node returned by Build is compared with FromType / FromRepr of Schema.tla applied to "
-             "the accepted calls (type view and representation view)",
+             "the accepted calls (type view and representation view). Trace validation: seeded random sessions of ~300 "
+             "legal calls (nesting <= 6, 8 adversarial keys, repeated keys, AssignNode from three implementations, Build / "
+             "Reset / reuse) are recorded from the real builders -- call, arguments, result class returned, node read back "
+             "at Build -- and TLC accepts the trace only if Assembler.tla explains every event, with its invariants "
+             "evaluated in every state",
         assumptions=["TLC explores the bounded instance exhaustively; bounds are in coverage.tlc_runs",
                      "result classes: ok / repeated_key (datamodel.ErrRepeatedMapKey) / wrong_kind (any error from that call)"],
         exhaustive=True)
@@ -217,9 +267,9 @@ def c01(ctx):
                                                   hints=(0,), routes=("entry", "keyvalue")), profiles, deep=True)
     # (3) kind-restricted builders: Prototype.Map / .List and typed (bindnode) containers
     asm_generate_and_replay(ctx, "map", dict(topkind="map", nodes=4, depth=2, nkeys=2 if quick else 3, rejects=0,
-                                             kinds=("int", "bytes", "null"), prebuilt="all"), profiles, deep=True)
+                                             kinds=("int", "bytes", "null"), prebuilt="all+uint"), profiles, deep=True)
     asm_generate_and_replay(ctx, "list", dict(topkind="list", nodes=4, depth=2, nkeys=2, rejects=0,
-                                              kinds=("int", "link", "float"), prebuilt="all"), profiles, deep=True)
+                                              kinds=("int", "link", "float"), prebuilt="all+uint"), profiles, deep=True)
     # (4) scalar prototypes
     for k in ("bool", "int", "float", "string", "bytes", "link"):
         asm_generate_and_replay(ctx, "scalar-" + k, dict(topkind=k, nodes=1, depth=1, nkeys=1, rejects=1,
@@ -377,6 +427,7 @@ CONSTANTS
   DirOf <- ScDirOf
   MaxCrashes <- ScMaxCrashes
   MaxFaults <- ScMaxFaults
+  MaxCancels <- ScMaxCancels
 INVARIANTS %s%s
 PROPERTIES CommittedStays
 CHECK_DEADLOCK FALSE
@@ -411,6 +462,12 @@ def c18(ctx):
     fs_stage(ctx, "race-mixed", sample=3000 if quick else 30000)
     # B3 only: three writers + reader, all interleavings (history hidden by the VIEW)
     ctx.tlc("FsStoreGen", fs_cfg("race-3", emit=False, view=True), workers=8, timeout=2400)
+    # cancellation: B3 on GiveUp (a writer that notices its cancelled context may abandon, next to a concurrent
+    # writer of the same key), and an enumeration of cancel points on the real store
+    for sc in ("cancel-put", "cancel-stream"):
+        ctx.tlc("FsStoreGen", fs_cfg(sc, emit=False, view=True), workers=8, timeout=2400)
+    args = ["fscancel", "-seed", str(ctx.seed), "-scratch", ctx.scratch] + ([] if quick else ["-thorough"])
+    ctx.absorb(ctx.vh_run(args, timeout=3000), args, label="fsstore/cancel")
     # free-running stress under the Go race detector: only order-free facts are asserted
     args = ["fsstress", "-dur", "2s" if quick else "20s", "-seed", str(ctx.seed), "-scratch", ctx.scratch]
     rep = ctx.vh_run(args, race=True, race_target="fsstore[stress]")
@@ -422,8 +479,11 @@ def c18(ctx):
              "re-putting; an injected failure (torn write included) at every operation; every interleaving of two writers "
              "(same key; different keys in one shard directory; stream + abandoned stream + fault) and a reader. Each is "
              "forced through the real store via the blocking verif hooks and the directory is compared with the "
-             "specification's state after every step; non-trivial = contains a crash, a fault or a second thread; "
-             "distinct = distinct schedules",
+             "specification's state after every step; cancellation: the writer's context is cancelled immediately before "
+             "each of its filesystem operations (put and streams of 1 and 3 writes; 0 B, 57 B, 300 KiB, 1 MiB; the operation "
+             "count is discovered by a dry run), then a new handle checks absent-or-complete, acknowledged-is-visible and "
+             "usability; non-trivial = contains a crash, a fault, a cancellation or a second thread; distinct = distinct "
+             "schedules",
         assumptions=["process death is simulated in-process (threads never resume; files stay as they are); power loss / "
                      "page-cache loss is outside the property",
                      "hook points cover every filesystem call of fsstore.go (reviewed)"],
@@ -644,6 +704,10 @@ def c14(ctx):
     f = walk_cases(ctx, "plain", 2, "plain")
     args = ["walk", "-in", f, "-paths"]
     ctx.absorb(ctx.vh_run(args, timeout=3000), args, label="walk/paths")
+    if ctx.tier != "quick":   # the paths of the depth-3 selector sample as well
+        f = walk_cases(ctx, "plain3", 3, "plain3", sample=ctx.seed % 23)
+        args = ["walk", "-in", f, "-paths"]
+        ctx.absorb(ctx.vh_run(args, timeout=3000), args, label="walk/paths3")
     pf = os.path.join(ctx.scratch, "paths.ndjson")
     ctx.tlc("PathsGen", tr_cfg("plain", 1).replace("SPECIFICATION Spec", "SPECIFICATION Spec2")
             .replace(TR_INV + " Emit", "RoundTripIffClean ResolveIffExists Emit2"), capture=pf, workers=4)
@@ -666,6 +730,10 @@ def c15(ctx):
     f = walk_cases(ctx, "ctl", 1, "ctl")
     args = ["walk", "-in", f, "-controls"]
     ctx.absorb(ctx.vh_run(args, timeout=3000), args, label="walk/controls")
+    if ctx.tier != "quick":   # every control over a hashed sample (1/41, by seed) of ALL selectors of AST depth 2
+        f = walk_cases(ctx, "ctl2", 2, "ctl2", sample=ctx.seed % 41)
+        args = ["walk", "-in", f, "-controls"]
+        ctx.absorb(ctx.vh_run(args, timeout=5000), args, label="walk/controls2")
     return ctx.finish(
         "model_checking",
         rule="cases = 7 graphs x 6-7 selectors (recursive explore-all with and without limits and stop-at, unions, fields) x "
@@ -680,25 +748,26 @@ def c15(ctx):
 
 
 # --------------------------------------------------------------------------- transforms
-def tf_cfg(tmode):
+def tf_cfg(tmode, sample=0):
     return """SPECIFICATION Spec
 CONSTANTS
   Mode = "plain"
   SelDepth = 1
   Shard = 0
   NShards = 1
-  Sample = 0
+  Sample = %d
   TMode = "%s"
 INVARIANTS IdentityIsIdentity ReplaceLandsAtTarget RemoveRemoves Emit
 CHECK_DEADLOCK FALSE
-""" % tmode
+""" % (sample, tmode)
 
 
 @prop("C16")
 def c16(ctx):
-    for tmode in ("focus", "focus2", "walk"):
+    modes = ("focus", "focus2", "walk") if ctx.tier == "quick" else ("focus", "focus2all", "walk", "walk2")
+    for tmode in modes:
         f = os.path.join(ctx.scratch, "tf-%s.ndjson" % tmode)
-        ctx.tlc("TransformGen", tf_cfg(tmode), capture=f, workers=4, timeout=2400)
+        ctx.tlc("TransformGen", tf_cfg(tmode, ctx.seed % 13), capture=f, workers=4, timeout=2400)
         args = ["transform", "-in", f]
         ctx.absorb(ctx.vh_run(args, timeout=3000), args, label="transform/" + tmode)
     return ctx.finish(
@@ -761,7 +830,7 @@ def c04(ctx):
 
 
 # --------------------------------------------------------------------------- schemas
-NTYPES = 34
+NTYPES = 41
 
 
 def sg_cfg(mode, shard, nshards, mutevery, wide=False):
@@ -823,7 +892,7 @@ def c09(ctx):
     fconf = schema_cases(ctx, "conforming", 1, "conf")
     genrun = gen_engine(ctx, fconf)
     if genrun is not None:
-        args = ["-in", f]
+        args = ["genschema", "-in", f]
         ctx.absorb(ctx.vh_run(args, binary=genrun, timeout=3000), args, label="genrun/mutants", binary=genrun)
     return ctx.finish(
         "model_checking",
@@ -882,7 +951,7 @@ def c13(ctx):
         return ctx.finish("model_checking", rule="generated package failed to compile", exhaustive=False)
     # (3) the same cases as C08 / C09 on the generated prototypes
     for label, f, extra in (("conforming", fconf, ["-roundtrip"]), ("mutants", fmut, [])):
-        args = ["-in", f] + extra
+        args = ["genschema", "-in", f] + extra
         rep = ctx.vh_run(args, binary=genrun, timeout=3000)
         ctx.absorb(rep, args, label="genrun/" + label, binary=genrun)
     return ctx.finish(
@@ -954,7 +1023,10 @@ CHECK_DEADLOCK FALSE
 @prop("C20")
 def c20(ctx):
     quick = ctx.tier == "quick"
-    for ng, opsper, iters in ((2, 1, 30), (3, 1, 6 if quick else 30)):
+    plans = [(2, 1, 30), (3, 1, 6 if quick else 30)]
+    if not quick:
+        plans.append((2, 2, 2))      # two operations per goroutine: an operation overlapping the switch between two others
+    for ng, opsper, iters in plans:
         f = os.path.join(ctx.scratch, "cc-%d-%d.ndjson" % (ng, opsper))
         ctx.tlc("ConcurrencyGen", cc_cfg(ng, opsper), capture=f, workers=8, timeout=2400)
         args = ["conc", "-in", f, "-iters", str(iters)]
@@ -1014,6 +1086,8 @@ def c11(ctx):
             args = ["immutable", "-in", f]
             ctx.absorb(ctx.vh_run(args, timeout=5000), args, label="immutable/" + pr)
             os.remove(f)
+    # B2: recorded builder sessions (Build / Reset / reuse): every node returned is re-read after every later call
+    asm_trace_stage(ctx, 30 if quick else 200, 300)
     return ctx.finish(
         "model_checking",
         rule="histories = every sequence of 3 (thorough: 4) operations from {read, partial iteration / partial large-bytes "
